@@ -47,7 +47,8 @@ def plan(tier, seed, build, scale):
     units = []
     n = 4 if tier == "quick" else 5
     for k in KINDS:
-        units.append({"mode": "exhaustive", "kind": k, "maxlen": n, "cases": [0, 1]})
+        deep = tier == "thorough" and k in ("future_ok", "future_raise", "task_item", "item_ok")
+        units.append({"mode": "exhaustive", "kind": k, "maxlen": n + (1 if deep else 0), "cases": [0, 1], "timeout": 2400, "case_timeout": 2300})
     nr = int((3000 if tier == "quick" else 60000) * scale)
     per = max(1, nr // 8)
     a = 0
